@@ -118,6 +118,32 @@ Theorem C07_mirror_y_recentred_even : forall (O : Ops), Laws O -> forall (a : ar
   = get3 O (field O a g sel (filter drop (table O a g))) k (g_ny O g - 1 - j) i.
 Proof. exact mirror_y_rc_cells_even. Qed.
 
+(* NON-VACUITY (Proofs/C07MirrorRCExample.v, complex instance ROps): a concrete 2 x 3 dispersion request,
+   domain 3 x 2, measurement point (1, 1), double storage, halo 0 — requested modes (2, 2) (even retained
+   count) or (4, 4) (clamped to the odd count nlx = 3) — satisfies every hypothesis of the theorems above,
+   for x and for y; its reflected measurement points are (2, 1) and (1, 1). *)
+From Coq Require Import Reals.
+From Coquelicot Require Import Complex.
+From BL Require Import Base.ROps Proofs.C07MirrorRCExample.
+Example C07_mirror_recentred_hypotheses_satisfiable :
+  forall nl g, (nl = 2%nat /\ g = ex_geom 2 2) \/ (nl = 4%nat /\ g = ex_geom 3 2) ->
+  let a := ex_args nl (RtoC 1) (RtoC 1) in
+  wf ROps a /\ geometry ROps a = inl g /\ a_footprint ROps a = false /\ a_single ROps a = false /\
+  recentred ROps a = true /\ recentred ROps (mirror_rc_args ROps a) = true /\
+  recentred ROps (mirror_y_rc_args ROps a) = true /\
+  (0 < length (a_levels ROps a))%nat /\ (0 < g_ny ROps g)%nat /\ (0 < g_nx ROps g)%nat /\
+  a_xm ROps (mirror_rc_args ROps a) = RtoC 2 /\ a_ym ROps (mirror_y_rc_args ROps a) = RtoC 1.
+Proof. exact mirror_rc_hypotheses_satisfiable. Qed.
+Example C07_mirror_recentred_parities :
+  Nat.even (g_nlx ROps (ex_geom 2 2)) = true /\ Nat.odd (g_nlx ROps (ex_geom 3 2)) = true.
+Proof. exact ex_parities. Qed.
+(* the hypothesis on the reflected point is not redundant: xm = xmx, ym = 0 is re-centred by the code, its
+   reflection is the origin, which the code does not re-centre *)
+Example C07_mirror_recentred_origin_excluded :
+  let a := ex_args 2 (RtoC 3) (RtoC 0) in
+  recentred ROps a = true /\ recentred ROps (mirror_rc_args ROps a) = false.
+Proof. exact mirror_rc_origin_excluded. Qed.
+
 Goal True. idtac "THEOREM C07_mirror_recentred_geometry". Abort. Print Assumptions C07_mirror_recentred_geometry.
 Goal True. idtac "THEOREM C07_mirror_x_recentred". Abort. Print Assumptions C07_mirror_x_recentred.
 Goal True. idtac "THEOREM C07_mirror_x_recentred_defect". Abort. Print Assumptions C07_mirror_x_recentred_defect.
@@ -127,3 +153,5 @@ Goal True. idtac "THEOREM C07_mirror_y_recentred". Abort. Print Assumptions C07_
 Goal True. idtac "THEOREM C07_mirror_y_recentred_defect". Abort. Print Assumptions C07_mirror_y_recentred_defect.
 Goal True. idtac "THEOREM C07_mirror_y_recentred_odd". Abort. Print Assumptions C07_mirror_y_recentred_odd.
 Goal True. idtac "THEOREM C07_mirror_y_recentred_even". Abort. Print Assumptions C07_mirror_y_recentred_even.
+Goal True. idtac "THEOREM C07_mirror_recentred_hypotheses_satisfiable". Abort. Print Assumptions C07_mirror_recentred_hypotheses_satisfiable.
+Goal True. idtac "THEOREM C07_mirror_recentred_origin_excluded". Abort. Print Assumptions C07_mirror_recentred_origin_excluded.
